@@ -259,8 +259,27 @@ struct H {
         const std::string c = prefix_ok ? show(second, 2) : ("prefix-disturbed:" + show(second));
         if (v0 != v1 || v0 != v2 || v0 != v3) return "C value-changed " + v0 + "|" + v3;
         if (t0 != t1) return "C tags-changed";
-        if (a == b && a == c) return "C same";
-        return "C diff " + a + "|" + b + "|" + c;
+        if (!(a == b && a == c)) return "C diff " + a + "|" + b + "|" + c;
+        // cache objects that are EMPTY but own storage (legal states of an Array): built with room, and a used
+        // cache emptied with Clear() and reused for another template. An empty cache means "not parsed yet".
+        {
+            Tags_  roomy(SizeT{8});
+            Stream s1;
+            Template::Render(p, SizeT(in.n), value, s1, roomy);
+            if (show(s1) != a) return "C diff " + a + "|reserved-cache:" + show(s1) + "|" + c;
+            Tags_ reused;
+            const char           *other = "{raw:zz}x<if case=\"1\">y</if>";
+            std::vector<uint64_t> ou;
+            for (const char *q = other; *q; ++q) ou.push_back(uint64_t(static_cast<unsigned char>(*q)));
+            vh::ExactBuf<Char_T>            ob(ou);
+            Stream                          s2;
+            Template::Render(static_cast<const Char_T *>(ob.p), SizeT(ob.n), value, s2, reused);
+            reused.Clear();
+            Stream s3;
+            Template::Render(p, SizeT(in.n), value, s3, reused);
+            if (show(s3) != a) return "C diff " + a + "|cleared-cache:" + show(s3) + "|" + c;
+        }
+        return "C same";
     }
 
     // ---- tag tree dump (public fields only) --------------------------------------------------
